@@ -127,13 +127,13 @@ _CODEC_NOTE = "modelled: the lib0 v1 layer (coq/Codec/*.v) function by function,
 PROPS["C09"] = {
     "level": "proof", "theorems": _GEN["C09"], "theorem_kinds": {},
     "rule": "per case: 18 varints (edge values, all widths), 4 nested Any values, an IdSet, StateVector, Snapshot, StickyIndex (binary v1/v2 + JSON), AwarenessUpdate, sync Message (every tag incl. custom 4..255) and every update of a seeded 2..3 replica history (transaction updates and full states, v1 and v2, gc and non-gc senders) plus 56 hand-made v1 updates with foreign content kinds x every origin / parent shape and 6 generated v1 updates with ids over the whole width of the wire types (53-bit clients, clocks and origin clocks around 2^30, 2^31, 3*10^9, u32::MAX: the v2 clock columns store differences); every v2 update (emitted, and the v2 re-encoding of every v1 update) is decoded by the Coq model of lib0 v2 to the same blocks as its v1 form, and the model's v2 encoding is byte-compared with the implementation's; 8 Yjs-generated fixtures copied from the repository's compatibility tests: decode(encode x) = x in v1 and v2, v1->v2->v1 gives the same blocks, same effect on a document, and the Coq model decodes the same v1 bytes to the same value, its own re-encoding decodes to the same blocks and has the same effect on a real document. A case is one generated bundle; all are non-trivial (distinct by index)",
-    "trusted_base": [_CODEC_NOTE], "modelled_not_verified": ["v2 form of attributed id maps (implementation round trips only)", "serde adaptors", "Any::Number classification"], "assumptions": [],
+    "trusted_base": [_CODEC_NOTE], "modelled_not_verified": ["serde adaptors", "Any::Number classification"], "assumptions": [],
 }
 PROPS["C10"] = {
     "level": "proof", "theorems": _GEN["C10"], "theorem_kinds": {},
     "rule": "22 public decoding entry points (update v1/v2, state vector, snapshot, delete set, id map, Any, sticky index, awareness update, sync message + MessageReader, merge / diff / state-vector-from-update on encoded updates) x inputs derived from valid payloads by byte flips, random bytes, truncations, extreme varints spliced over fields, duplicated chunks, deletions, plus deep-nesting / huge-count resource inputs; every decode runs in a worker subprocess (8 MiB stack, wall-clock limit) with a counting allocator: panic, abort, crash, timeout, a single allocation request above 64*len+64 KiB, or a decoded value that cannot be re-encoded is a violation; the outcome class (ok / err) is compared with the Coq decoders for the v1-modelled entry points and for Update::decode_v2 (the model of lib0 v2 runs in its own process under a 3 s / 6 GB guard; an input on which it gives up is counted, not compared). A resource failure of a v2 update reader is filed under the known finding (run-length expansion) only when the model reading the same bytes also yields a huge update or gives up. Non-trivial = a mutated input that the implementation rejects (distinct by entry point and bytes)",
     "trusted_base": [_CODEC_NOTE, "real stack depth, allocator behaviour and wall-clock time are observed by the worker runs only; the theorems bound fuel (= input length + 1), nesting depth and exclude every modelled panic site"],
-    "modelled_not_verified": ["IdMap::decode_v2", "Update::merge_updates / encode_diff on decoded garbage (observed by the workers)"], "assumptions": [],
+    "modelled_not_verified": ["Update::merge_updates / encode_diff on decoded garbage (observed by the workers)"], "assumptions": [],
 }
 PROPS["C15"] = {
     "level": "proof", "theorems": _GEN["C15"], "theorem_kinds": {},
